@@ -151,7 +151,7 @@ func (a *Analysis) registryMissConds(conds []Cond) (string, bool) {
 
 func (a *Analysis) isRegistryMap(m *Val) bool {
 	r := addrRoot(stripCT(m))
-	for r != nil && (r.Op == "init" || (r.Op == "call" && len(r.Args) > 0) || r.Op == "tassert" || r.Op == "conv") {
+	for r != nil && (r.Op == "init" || (r.Op == "call" && len(r.Args) > 0) || (r.Op == "atomicload" && len(r.Args) > 0) || r.Op == "tassert" || r.Op == "conv") {
 		// follow loads, accessor calls (e.g. an atomic pointer's Load) and conversions back to the variable they start from
 		r = addrRoot(stripCT(r.Args[0]))
 	}
@@ -189,6 +189,10 @@ func (a *Analysis) computeRegistryAssumption() {
 					}
 				case *ssa.Call:
 					if b, ok := in.Call.Value.(*ssa.Builtin); ok && (b.Name() == "delete" || b.Name() == "clear") {
+						mut[fn] = true
+					}
+					// replacing a table published through an atomic pointer
+					if callee := in.Call.StaticCallee(); callee != nil && strings.HasPrefix(fullName(callee), "(*sync/atomic.Pointer[") && !strings.HasSuffix(fullName(callee), ".Load") {
 						mut[fn] = true
 					}
 				case *ssa.Store:
